@@ -345,13 +345,33 @@ def fwdStream (s : Pl) (p : UInt16 × UInt16) : Pl :=
       | some dc => { s1 with chans := setChan s1.chans (dc.emitAll r.2) }
       | none => s1
 
-/-- `handle_forward_tsn` — NOTE the plain numeric comparisons `new > old` and `tsn > new`.
-Whatever was collected of partly skipped messages is forgotten (every reassembly buffer cleared). -/
-def handleForwardTsn (s : Rx) (newCum : UInt32) (pairs : List (UInt16 × UInt16)) : Rx :=
-  if newCum > s.cum then
-    let pl1 := { s.pl with chans := s.pl.chans.map (fun c => { c with reasm := [] }) }
-    { s with cum := newCum, rq := s.rq.filter (fun e => e.1 > newCum),
-             pl := pairs.foldl fwdStream pl1 }
-  else s
+/-- the part of `handle_forward_tsn` that moves the cumulative point: serial comparison, the
+receive queue keeps what is serially beyond it, every reassembly buffer is forgotten, the listed
+ordered streams skip ahead -/
+def forwardTo (s : Rx) (newCum : UInt32) (pairs : List (UInt16 × UInt16)) : Rx :=
+  let pl1 := { s.pl with chans := s.pl.chans.map (fun c => { c with reasm := [] }) }
+  { s with cum := newCum, rq := s.rq.filter (fun e => tsnGt e.1 newCum),
+           pl := pairs.foldl fwdStream pl1 }
+
+/-- the drain at the end of `handle_forward_tsn`: chunks queued right behind the new cumulative
+point are processed one by one (`false` = `process_data_payload` returned `Err`) -/
+def fwdDrain (proc : Proc) : Nat → Rx → Rx × Bool
+  | 0, s => (s, true)
+  | f + 1, s =>
+    match rqGet? s.rq (s.cum + 1) with
+    | none => (s, true)
+    | some c =>
+      let r := proc s.pl c
+      let s1 := { s with rq := rqRemove s.rq (s.cum + 1), pl := r.1 }
+      if r.2 then fwdDrain proc f { s1 with cum := s.cum + 1, usedRwnd := s.usedRwnd - c.valueLen }
+      else (s1, false)
+
+/-- `handle_forward_tsn` -/
+def handleForwardTsnWith (proc : Proc) (s : Rx) (newCum : UInt32) (pairs : List (UInt16 × UInt16)) : Rx × Bool :=
+  if tsnGt newCum s.cum then
+    let s1 := forwardTo s newCum pairs
+    let r := fwdDrain proc s1.rq.length s1
+    if r.2 then (scheduleSackImmediate r.1, true) else r
+  else (s, true)
 
 end RtcModel.Sctp
